@@ -54,7 +54,10 @@ type session struct {
 	PeerID    string
 	Handshake []byte   // first frame (valid or hostile)
 	Frames    [][]byte // frames after the handshake (lead-in valid frames and hostile ones)
-	Sentinel  int      // piece requested last to learn that everything before was dispatched
+	// WaitForRequest: after the handshake, wait (bounded) for a PIECE_REQUEST from
+	// the child before sending the stream, so that the payloads are solicited.
+	WaitForRequest bool
+	Sentinel       int // piece requested last to learn that everything before was dispatched
 
 	// derived by analysing the stream the way the receiver parses it
 	hs      parsed
@@ -123,6 +126,9 @@ type world struct {
 
 	last     stats
 	haveLast bool
+	prevB    []byte // in-progress download file after the previous session
+
+	needRestart bool
 
 	probeRand    *rand.Rand
 	floodDone    bool
@@ -217,7 +223,37 @@ func (w *world) genSession(r *rand.Rand, idx int) *session {
 			s.Frames = append(s.Frames, frame(pieceRequest(i, 0, g.pieceLen(i))))
 		}
 	}
-	switch k := r.Intn(20); {
+	switch k := r.Intn(21); {
+	case k == 20:
+		// Solicited: announce every piece, wait until the child asks for some, then
+		// answer with hostile payloads for every piece it may have asked for (the
+		// pieces missing at start, the short last one included).
+		s.Kind = "solicited"
+		s.WaitForRequest = true
+		s.Handshake = frame(handshakeMsg(g, s.PeerID, bitsetBytes(g.N, func(int) bool { return true })))
+		missing := []int{g.N - 1}
+		if w.role == "agent" && s.Target == 1 {
+			missing = nil
+			have := map[int]bool{}
+			for _, i := range w.have {
+				have[i] = true
+			}
+			for i := 0; i < g.N; i++ {
+				if !have[i] {
+					missing = append(missing, i)
+				}
+			}
+		}
+		for _, i := range missing {
+			switch r.Intn(3) {
+			case 0:
+				b := append([]byte{}, g.piece(i)...)
+				b[r.Intn(len(b))] ^= 0x40
+				s.Frames = append(s.Frames, append(frame(piecePayload(i, 0, g.pieceLen(i))), b...))
+			default:
+				s.Frames = append(s.Frames, genWrongLengthPayload(r, g, i))
+			}
+		}
 	case k < 7:
 		s.Kind = "handshake"
 		s.Handshake = genHandshakeFrame(r, g, other)
@@ -263,6 +299,7 @@ func (w *world) storeDir() string { return filepath.Join(w.dir, fmt.Sprintf("gen
 // start launches a fresh child, connects the canary and records baselines.
 func (w *world) start() error {
 	w.gen++
+	w.prevB, w.needRestart = nil, false
 	w.logf("starting child gen %d", w.gen)
 	defer func() { w.logf("child started") }()
 	ch, err := startChild(w.bin, filepath.Join(w.dir, fmt.Sprintf("gen%d", w.gen)), w.spec())
@@ -530,6 +567,19 @@ func (w *world) runSession(s *session, upto int) outcome {
 	}
 	o.Delivered = true
 
+	if s.WaitForRequest {
+		deadline := time.Now().Add(2 * time.Second)
+		for {
+			f, ok := pc.next(time.Until(deadline))
+			if !ok || f.Err != nil {
+				break // not asked (nothing missing / conn gone): the payloads stay unsolicited
+			}
+			if f.Msg.Type == p2p.Message_PIECE_REQUEST {
+				w.run.Count("solicited_sessions_request_seen", 1)
+				break
+			}
+		}
+	}
 	st := s.stream()
 	if upto >= 0 && upto < len(st) {
 		st = st[:upto]
@@ -566,7 +616,7 @@ func (w *world) runSession(s *session, upto int) outcome {
 }
 
 // invariants checks the store after a session.
-func (w *world) invariants() []problem {
+func (w *world) invariants(s *session) []problem {
 	var ps []problem
 	skip := ""
 	if w.role == "agent" {
@@ -583,6 +633,34 @@ func (w *world) invariants() []problem {
 		if err == nil && m["error"] == nil {
 			df := findDataFile(w.storeDir(), g.Digest.Hex())
 			b, rerr := os.ReadFile(df)
+			// bytes of the in-progress file may change only inside the regions of the
+			// pieces that this session's payload frames addressed
+			if rerr == nil && w.prevB != nil && len(b) == len(w.prevB) && !bytes.Equal(b, w.prevB) {
+				allowed := make([]bool, g.N)
+				if s.Target == 1 {
+					for _, p := range s.parsedF {
+						if p.Msg != nil && p.Msg.Type == p2p.Message_PIECE_PAYLOAD && p.Msg.PiecePayload != nil {
+							if i := int(p.Msg.PiecePayload.Index); i >= 0 && i < g.N {
+								allowed[i] = true
+							}
+						}
+					}
+				}
+				for i := 0; i < g.N; i++ {
+					off := int64(i) * g.PieceLength
+					end := off + g.pieceLen(i)
+					if end > int64(len(b)) {
+						break
+					}
+					if !allowed[i] && !bytes.Equal(b[off:end], w.prevB[off:end]) {
+						ps = append(ps, problem{"inprogress-bytes-changed-outside-addressed-pieces", map[string]interface{}{"piece": i, "session_target": s.Target}})
+						break
+					}
+				}
+			}
+			if rerr == nil {
+				w.prevB = b
+			}
 			if rerr != nil || len(b) != len(g.Content) {
 				ps = append(ps, problem{"inprogress-file-length-changed", map[string]interface{}{"file": df, "len": len(b), "want": len(g.Content)}})
 			} else if set, ok := m["set"].([]interface{}); ok {
@@ -715,8 +793,27 @@ func (w *world) report(s *session, o outcome) {
 			"role": w.role, "bandwidth_limiter_enabled": w.limiter,
 		})
 	}
-	for _, p := range w.invariants() {
-		w.run.Violation(w.signature(comp, class, p.Symptom), caseID, map[string]interface{}{
+	inv := w.invariants(s)
+	if len(inv) > 0 {
+		w.needRestart = true // judge the next sessions on untouched files
+	}
+	// a store symptom is caused by a frame that writes: name the payload frame
+	// (the over-long one first) when the session carries several hostile frames
+	wclass, wcomp := class, comp
+	for _, pref := range []string{"PIECE_PAYLOAD-overlong", "PIECE_PAYLOAD-"} {
+		found := false
+		for _, c := range s.hostile {
+			if strings.HasPrefix(c, pref) {
+				wclass, wcomp, found = c, componentOf(c), true
+				break
+			}
+		}
+		if found {
+			break
+		}
+	}
+	for _, p := range inv {
+		w.run.Violation(w.signature(wcomp, wclass, p.Symptom), caseID, map[string]interface{}{
 			"symptom": p.Symptom, "detail": p.Detail, "input": w.describe(s),
 			"role": w.role, "bandwidth_limiter_enabled": w.limiter,
 		})
@@ -1164,6 +1261,15 @@ func (w *world) runAll(r *rand.Rand, n int, replayIdx int) {
 			}
 		}
 		w.report(s, o)
+		if w.needRestart {
+			w.run.Count("restarts_after_store_violation", 1)
+			w.ch.kill()
+			if err := w.start(); err != nil {
+				w.run.Inconclusive(w.name + ": cannot restart child: " + err.Error())
+				return
+			}
+			continue
+		}
 		if s.hs.Class == "valid-handshake" && !o.HandshakeAnswered && o.ClosedByChild {
 			// A fully valid handshake from a fresh peer id was hung up on. Legitimate
 			// only if the torrent is at capacity, and only the canary is connected.
@@ -1268,7 +1374,7 @@ func TestC14(t *testing.T) {
 	dir := ev.TempDir(t, "c14-")
 	bin := buildChild(t, dir)
 
-	perWorld := run.N(376, 7500)
+	perWorld := run.N(300, 7500)
 	replayWorld, replayIdx := "", -1
 	if rc := run.ReplayCase(); rc != "" {
 		parts := strings.Split(rc, "|")
@@ -1309,7 +1415,7 @@ func TestC14(t *testing.T) {
 					}
 				}
 				g1 := w.geoms[1]
-				for i := 0; i < g1.N; i++ {
+				for i := 0; i < g1.N-1; i++ { // the (short) last piece is always missing
 					if i%2 == 0 || r.Intn(4) == 0 {
 						w.have = append(w.have, i)
 					}
